@@ -38,9 +38,16 @@ def parseUint32 (s : Bytes) : Option Nat :=
   if s.isEmpty || !s.all isDigit then none
   else if decVal s < 4294967296 then some (decVal s) else none
 
-/-- the page size (enumerate.go:55-63): default when absent, the maximum when unparsable or larger
-than the maximum.  NOTE: 0 is accepted and handed to the storage as it is. -/
+/-- the page size (enumerate.go:55-63, as repaired): default when absent, the maximum when unparsable,
+zero or larger than the maximum -/
 def enumLimit (c : Cfg) (arg : Bytes) : Nat :=
+  if arg = [] then c.defaultEnum else
+  match parseUint32 arg with
+  | none => c.maxEnumerate
+  | some n => if n = 0 || n > c.maxEnumerate then c.maxEnumerate else n
+
+/-- the page size before the repair: 0 was accepted and handed to the storage as it was -/
+def enumLimitOld (c : Cfg) (arg : Bytes) : Nat :=
   if arg = [] then c.defaultEnum else
   match parseUint32 arg with
   | none => c.maxEnumerate
@@ -65,11 +72,11 @@ def waitSeconds (c : Cfg) (arg : Bytes) : Nat :=
 
 /-! ## enumerate -/
 
-/-- `storage.EnumerateBlobs(ctx, ch, after, limit)` as the handler sees it: the reference map's answer –
-except that `memory.Storage` (mem.go:215 `limit > 0 && n == limit`) treats a limit of 0 as
-"no limit" (`zeroAll`), while localdisk/diskpacked/blobpacked send nothing -/
-def storeEnum (zeroAll : Bool) (m : SMap Bytes) (after : Bytes) (limit : Nat) : List (Bytes × Nat) :=
-  if limit = 0 && zeroAll then sizes (m.filter (fun p => ltB after p.1)) else enumOf m after limit
+/-- `storage.EnumerateBlobs(ctx, ch, after, limit)` of `memory.Storage` (mem.go:215
+`limit > 0 && n == limit`): a limit of 0 means "no limit" (localdisk/diskpacked/blobpacked send
+nothing).  Only the pre-repair counterexample needs it: the handler never passes 0 any more. -/
+def storeEnumMem (m : SMap Bytes) (after : Bytes) (limit : Nat) : List (Bytes × Nat) :=
+  if limit = 0 then sizes (m.filter (fun p => ltB after p.1)) else enumOf m after limit
 
 structure EnumReq where
   after : Bytes
@@ -92,32 +99,33 @@ def pageAfter (limit : Nat) (got : List (Bytes × Nat)) : Bytes :=
 
 /-- the long-poll loop (enumerate.go:92-125, as repaired: `time.Now().Before(deadline)`): without a wait
 one iteration; with a wait, iterate until an iteration sends a blob or the deadline has passed -/
-def enumLoop (zeroAll : Bool) (w : Nat) (after : Bytes) (limit : Nat) :
+def enumLoop (w : Nat) (after : Bytes) (limit : Nat) :
     List (SMap Bytes) → List (Bytes × Nat) × Bytes
   | [] => ([], [])
   | m :: ms =>
-    let got := storeEnum zeroAll m after limit
+    let got := enumOf m after limit
     if w = 0 || !got.isEmpty then (got, pageAfter limit got)
-    else enumLoop zeroAll w after limit ms
+    else enumLoop w after limit ms
 
 /-- the loop as it was before the repair (`time.Now().After(deadline)`): with a wait the condition is
 false at once and the body never runs -/
-def enumLoopOld (zeroAll : Bool) (w : Nat) (after : Bytes) (limit : Nat) (m0 : SMap Bytes) :
+def enumLoopOld (w : Nat) (after : Bytes) (limit : Nat) (m0 : SMap Bytes) :
     List (Bytes × Nat) × Bytes :=
-  if w = 0 then enumLoop zeroAll w after limit [m0] else ([], [])
+  if w = 0 then enumLoop w after limit [m0] else ([], [])
 
 /-- handleEnumerateBlobs (enumerate.go:43) -/
-def handleEnumerateBlobs (c : Cfg) (zeroAll : Bool) (m0 : SMap Bytes) (later : List (SMap Bytes))
+def handleEnumerateBlobs (c : Cfg) (m0 : SMap Bytes) (later : List (SMap Bytes))
     (r : EnumReq) : EnumResp :=
   let limit := enumLimit c r.limit
   if r.maxwait ≠ [] && atoi r.maxwait != 0 && r.after ≠ [] then .badRequest else
-  let res := enumLoop zeroAll (waitSeconds c r.maxwait) r.after limit (m0 :: later)
+  let res := enumLoop (waitSeconds c r.maxwait) r.after limit (m0 :: later)
   .ok res.1 res.2
 
-def handleEnumerateBlobsOld (c : Cfg) (zeroAll : Bool) (m0 : SMap Bytes) (r : EnumReq) : EnumResp :=
+/-- the handler before the long-poll repair -/
+def handleEnumerateBlobsOld (c : Cfg) (m0 : SMap Bytes) (r : EnumReq) : EnumResp :=
   let limit := enumLimit c r.limit
   if r.maxwait ≠ [] && atoi r.maxwait != 0 && r.after ≠ [] then .badRequest else
-  let res := enumLoopOld zeroAll (waitSeconds c r.maxwait) r.after limit m0
+  let res := enumLoopOld (waitSeconds c r.maxwait) r.after limit m0
   .ok res.1 res.2
 
 /-! ## stat -/
